@@ -402,7 +402,12 @@ def cargo_toml_ob(P, R, mp, log_dir, bound, pid):
         for rev in (False, True):
             ex = cargo_executor(P, R, bound, rev)
             g = ex.sym_value("backend::project::ProjectGenerator", "g")
-            outs = ex.run(f, [g])
+            try:
+                outs = ex.run(f, [g])
+            except (Unsupported, symex.PathExplosion) as x:
+                # the function no longer has a shape the model covers (e.g. a new hash container): the native scenarios decide
+                r0 = {"id": "X-cargo_toml", "engine": "E2-X mirsmt", "statement": statement, "bound": "-", "functions_encoded": [n + " (MIR)" for n in ex.encoded]}
+                return result_of("X-cargo_toml", r0, [f"generate_cargo_toml is not executable by the model any more: {str(x)[:160]}"], 0, 0, t0, lambda: cargo_native(log_dir, pid))
             # representation invariant of the map (X-add_rust_crate; add_rust_crate_with_version inserts Some): every recorded spec is Some
             outs = [o for o in outs if not any(re.match(r"^g\.6\.v\d+!tag$", str(k)) and v == ("eq", 0) for k, v in o.state.facts.items())]
             runs.append((ex, outs))
@@ -554,6 +559,8 @@ def cargo_native(log_dir, pid, only_wild=False):
                 problems.append(f"[{prof}] {name}: the dependency lines differ between two runs of the same program")
             if len(names) != len(set(names)):
                 problems.append(f"[{prof}] {name}: a crate is declared twice: {sorted(x for x in names if names.count(x) > 1)}")
+            if name == "web_and_json" and ('"web"' not in line or '"json"' not in line):
+                problems.append(f"[{prof}] {name}: incan_stdlib lacks the web / json feature: {line.split('|')[0][:100]}")
             need = {"eight_crates": ["rand", "regex", "anyhow", "log", "bytes", "futures", "itertools", "uuid"], "serde_overlap": ["serde", "serde_json", "chrono"],
                     "axum_tokio_overlap": ["axum", "tokio", "tracing"], "tokio_only": ["tokio", "reqwest", "regex"], "unknown_crate": ["rand", "left_pad"],
                     "all_known": ["serde", "serde_json", "tokio", "time", "chrono", "reqwest", "uuid", "rand", "regex", "anyhow", "thiserror", "tracing", "clap",
